@@ -629,6 +629,47 @@ def probe_ops(kind, uni, roles=True):
     return ops
 
 
+def g_arity(kind, pt):
+    return 3 if (kind.dom and pt == 1) else 2
+
+
+def g_rules_mentioned(kind, rows, ops):
+    """every grouping rule that the initial rows or an adding call mention: (pt, rule)"""
+    out = [(pt, list(r)) for pt, r in rows if pt in (1, 2)]
+    for op in ops:
+        if op[0] == 1 and op[1] in (1, 2):
+            out.append((op[1], list(op[2])))
+        elif op[0] == 2 and op[1] in (1, 2):
+            out.extend((op[1], list(r)) for r in op[2])
+        elif op[0] == 16:                                   # add_role_for_user(u, r)
+            out.append((1, [op[1], op[2]]))
+        elif op[0] == 19:                                   # add_role_for_user_in_domain(u, r, d)
+            out.append((1, [op[1], op[2], op[3]]))
+    return out
+
+
+def prefix_aliases(kind, rows, ops):
+    """two DIFFERENT grouping rules whose declared-arity prefixes coincide (one of them has more fields than the role
+    definition declares): both map to the same role link.  Known finding C04/overlong-rules-share-a-link."""
+    seen = {}
+    for pt, r in g_rules_mentioned(kind, rows, ops):
+        k = (pt, tuple(r[:g_arity(kind, pt)]))
+        if k in seen and seen[k] != tuple(r):
+            return True
+        seen.setdefault(k, tuple(r))
+    return False
+
+
+def drop_prefix_aliases(kind, rows, ops):
+    """remove adding calls that would introduce a prefix alias (see prefix_aliases)"""
+    out = []
+    for op in ops:
+        if ((op[0] in (1, 2) and op[1] in (1, 2)) or op[0] in (16, 19)) and prefix_aliases(kind, rows, out + [op]):
+            continue
+        out.append(op)
+    return out
+
+
 def shrink(ops, fails, max_rounds=400):
     """greedy delta debugging: drop ops while `fails(ops)` stays true"""
     ops = list(ops)
@@ -697,7 +738,7 @@ def pretty_op(op):
 DEFAULT_WEIGHTS = dict(p_add=6, p_add_many=4, p_remove=4, p_remove_many=3, p_remove_filtered=2, p_update=3,
                        p_update_many=2, p_update_filtered=0, g_add=6, g_add_many=4, g_remove=4, g_remove_many=3,
                        g_remove_filtered=2, rbac=5, clear=0.5, load=1, save=1, build=0.5, flags=0, query=6, probe=1.5,
-                       short_g=0)
+                       short_g=0, long_g=0)
 
 
 class Gen:
@@ -833,7 +874,7 @@ class Gen:
 
     def op(self):
         rng = self.rng
-        names = [n for n, w in self.w.items() if w > 0 and n != "short_g"]
+        names = [n for n, w in self.w.items() if w > 0 and n not in ("short_g", "long_g")]
         n = rng.choices(names, weights=[self.w[x] for x in names])[0]
         if n == "p_add":
             return [(1, 0, self.rule(0))]
@@ -867,10 +908,15 @@ class Gen:
             r = self.rule(pt)
             if self.w.get("short_g") and rng.random() < self.w["short_g"]:
                 r = r[:1]
+            elif self.w.get("long_g") and rng.random() < self.w["long_g"]:
+                r = r + [rng.choice(self.uni.objs)]       # more fields than the role definition declares
             return [(1, pt, r)]
         if n == "g_add_many":
             pt = self.gpt()
-            return [(2, pt, self.batch(pt))]
+            b = self.batch(pt)
+            if self.w.get("long_g") and rng.random() < self.w["long_g"]:
+                b = [r + [rng.choice(self.uni.objs)] if rng.random() < 0.5 else r for r in b]
+            return [(2, pt, b)]
         if n == "g_remove":
             pt = self.gpt()
             return [(3, pt, self.rule(pt))]
